@@ -70,7 +70,7 @@ import (
 
 const (
 	c18Chain  = "verif-c18"
-	c18NAcc   = 14
+	c18NAcc   = 18 // 0 market admin + genesis delegator (votes), 1 name owner, 2 marker admin, 3-6 traders, 7/9 quarantine, 8 sanctioned, 10-12 misc, 13 fee recipient, 14/15 life-cycle marker managers, 16/17 probers (ghost transactions only)
 	c18Asset  = "applecoin"
 	c18Price  = "pricecoin"
 	c18Stake  = "stake"
@@ -126,6 +126,7 @@ type c18Net struct {
 	txOK       int
 	txFail     int
 	failCodes  map[string]int
+	side       *c18Side // non-nil: this is a PRIMARY node, it receives side traffic (c18_shadow_test.go)
 }
 
 func c18OpenApp(t *testing.T, db dbm.DB) *simapp.App {
@@ -192,6 +193,11 @@ func c18BootstrapN(t *testing.T, nAcc int, extra func(app *simapp.App, ctx sdk.C
 		ImmediateSanctionMinDeposit:   sdk.NewCoins(sdk.NewInt64Coin(c18Stake, 1000)),
 		ImmediateUnsanctionMinDeposit: sdk.NewCoins(sdk.NewInt64Coin(c18Stake, 1000))}), "sanction params")
 	must(app.SanctionKeeper.SanctionAddresses(ctx, accts[8].addr), "sanction")
+	must(c18GovBootstrap(app, ctx), "gov params")
+	// two attributes of one name on one account from the start (the name->address lookup is a reference count)
+	for _, v := range []string{"b1", "b2"} {
+		must(app.AttributeKeeper.SetAttribute(ctx, attrtypes.NewAttribute(c18KycNam, accts[3].addr.String(), attrtypes.AttributeType_String, []byte(v), nil), accts[1].addr), "attribute "+v)
+	}
 	if extra != nil {
 		must(extra(app, ctx, accts), "extra state")
 	}
@@ -336,6 +342,7 @@ func c18EventsDigest(h interface{ Write([]byte) (int, error) }, evs []abci.Event
 // block runs one block with the given transactions, commits, and records the block's digest
 // "apphash|results|events".
 func (n *c18Net) block(at time.Time, txs [][]byte) (*abci.ResponseFinalizeBlock, error) {
+	n.traffic("pre", txs)
 	n.height++
 	n.now = at
 	var res *abci.ResponseFinalizeBlock
@@ -347,6 +354,7 @@ func (n *c18Net) block(at time.Time, txs [][]byte) (*abci.ResponseFinalizeBlock,
 	if err != nil {
 		return nil, fmt.Errorf("FinalizeBlock(%d): %w", n.height, err)
 	}
+	n.traffic("mid", txs)
 	if _, err := n.app.Commit(); err != nil {
 		return nil, fmt.Errorf("Commit(%d): %w", n.height, err)
 	}
@@ -485,6 +493,17 @@ type c18Gen struct {
 	propSeq int
 	tmpMark string // a short-lived marker (created with a net asset value, later cancelled and deleted)
 	tmpSeq  int
+	// life-cycle markers (c18_lifecycle_test.go)
+	lcs     []*c18LC
+	lcSeq   int
+	lcShift int
+	lcBusy  map[string]bool // markers that already have a life-cycle transaction in the block being built
+	// ghost transactions (c18_shadow_test.go)
+	ghost    bool           // plan() is asked for a transaction that will never be included
+	ghostSeq map[int]uint64 // ghost transactions accepted by CheckTx since the last commit, per signer
+	nested   int
+	// paramsMode: a history dense in governance parameter changes and in transactions that depend on them
+	paramsMode bool
 }
 
 type c18Tx struct {
@@ -493,6 +512,8 @@ type c18Tx struct {
 	extra   sdk.Coins
 	signers []int
 	msgs    []sdk.Msg
+	strict  bool     // never share a block with another transaction of the same signers
+	lc      *c18LCOp // life-cycle operation carried by this transaction
 }
 
 func (g *c18Gen) uuid() uuid.UUID {
@@ -534,7 +555,32 @@ func (g *c18Gen) plan() *c18Tx {
 	ctx := g.n.queryCtx()
 	app := g.n.app
 	feecoin := func(n int64) *sdk.Coin { c := sdk.NewInt64Coin("feecoin", n); return &c }
-	switch k := r.Intn(112); {
+	if g.paramsMode && g.nested == 0 {
+		switch c := r.Intn(100); {
+		case c < 14:
+			return g.govParams()
+		case c < 50:
+			if p := g.dependent(); p != nil {
+				return p
+			}
+		}
+	}
+	switch k := r.Intn(150); {
+	case k >= 138: // a planned transaction whose LAST message fails (rolled-back branch)
+		g.nested++
+		defer func() { g.nested-- }()
+		if g.nested > 2 {
+			return nil
+		}
+		p := g.plan()
+		if p == nil || (p.lc != nil && p.lc.kind != "add") || strings.HasPrefix(p.kind, "bad-") || strings.HasPrefix(p.kind, "rolled-back") || strings.HasPrefix(p.kind, "gov-") {
+			return p
+		}
+		return g.rolledBack(p)
+	case k >= 130: // governance: parameter change
+		return g.govParams()
+	case k >= 112: // life-cycle markers
+		return g.lcPlan()
 	case k >= 100: // deliberately invalid transactions (their results and events must be deterministic too)
 		switch r.Intn(6) {
 		case 0:
@@ -823,7 +869,7 @@ func (g *c18Gen) plan() *c18Tx {
 			exp := g.n.now.Add(time.Duration(10+r.Intn(300)) * time.Second)
 			msg.ExpirationDate = &exp
 		}
-		return &c18Tx{kind: "attr-add", extra: sdk.NewCoins(sdk.NewInt64Coin(c18Stake, 500)), signers: []int{1}, msgs: []sdk.Msg{msg}}
+		return &c18Tx{kind: "attr-add", extra: sdk.NewCoins(sdk.NewInt64Coin(c18Stake, 600)), signers: []int{1}, msgs: []sdk.Msg{msg}}
 	case k < 90: // quarantine
 		switch c := r.Intn(10); {
 		case c < 2:
@@ -894,6 +940,116 @@ func (g *c18Gen) pick2(a, b string) string {
 	return b
 }
 
+// c18Built is one block as the generator built it.
+type c18Built struct {
+	txs   [][]byte
+	kinds []string
+	plans []*c18Tx
+	lcOps []*c18LCOp
+	lcIdx []int
+}
+
+// buildBlock plans and signs the transactions of the next block.  must: transactions that have to
+// be in it (votes, last-block deletes); last: the history's last block.
+func (g *c18Gen) buildBlock(nTx int, burst bool, must []*c18Tx) c18Built {
+	var bl c18Built
+	used := map[int]bool{}
+	add := func(p *c18Tx, force bool) {
+		if p == nil {
+			return
+		}
+		clash := false
+		for _, s := range p.signers {
+			// one tx per signer and block keeps planned transactions independent of each other's effects on sequences
+			if used[s] && (p.strict || g.r.Intn(3) > 0) {
+				clash = true
+			}
+		}
+		if clash && !force {
+			if p.lc != nil && p.lc.kind == "add" {
+				p.lc.lc.dead = true
+			}
+			return
+		}
+		gas := p.gas
+		if gas == 0 {
+			gas = 600_000
+		}
+		bz, err := g.n.signTx(gas, p.extra, p.signers, p.msgs...)
+		if err != nil {
+			g.w.Count("sign_failed")
+			return
+		}
+		for _, s := range p.signers {
+			used[s] = true
+		}
+		g.kinds[p.kind]++
+		if p.lc != nil {
+			bl.lcOps = append(bl.lcOps, p.lc)
+			bl.lcIdx = append(bl.lcIdx, len(bl.txs))
+		}
+		bl.kinds = append(bl.kinds, p.kind)
+		bl.plans = append(bl.plans, p)
+		bl.txs = append(bl.txs, bz)
+	}
+	if v := g.votes(); v != nil {
+		add(v, true)
+	}
+	for _, p := range must {
+		add(p, false)
+	}
+	for i := 0; i < nTx; i++ {
+		add(g.plan(), false)
+	}
+	if burst {
+		// burst: several triggers due at the same height / time, so that more than one is
+		// detected in one block and the queue holds several (also at export time)
+		due := uint64(g.n.height + 3)
+		for _, o := range []int{3, 4, 5, 6} {
+			if used[o] {
+				continue
+			}
+			var ev triggertypes.TriggerEventI = &triggertypes.BlockHeightEvent{BlockHeight: due}
+			if o == 6 {
+				ev = &triggertypes.BlockTimeEvent{Time: g.n.now.Add(20 * time.Second)}
+			}
+			msg, err := triggertypes.NewCreateTriggerRequest([]string{g.astr(o)}, ev, []sdk.Msg{banktypes.NewMsgSend(g.addr(o), g.addr(13), sdk.NewCoins(sdk.NewInt64Coin(c18Price, int64(o))))})
+			if err != nil {
+				continue
+			}
+			add(&c18Tx{kind: "trigger-burst", gas: 1_200_000, signers: []int{o}, msgs: []sdk.Msg{msg}}, false)
+		}
+	}
+	return bl
+}
+
+// runBlock runs a built block on the generator's chain and records what the life-cycle
+// operations in it did.
+func (g *c18Gen) runBlock(bl c18Built, at time.Time) (*abci.ResponseFinalizeBlock, error) {
+	g.ghostSeq = map[int]uint64{}
+	res, err := g.n.block(at, bl.txs)
+	if err != nil {
+		return nil, err
+	}
+	for i, tr := range res.TxResults {
+		if tr.Code != 0 {
+			g.w.Count("failed_" + strings.SplitN(bl.kinds[i], ":", 2)[0])
+			if os.Getenv("VERIF_C18_DEBUG") != "" {
+				fmt.Printf("FAILED %s: %s/%d %s\n", bl.kinds[i], tr.Codespace, tr.Code, tr.Log)
+			}
+		} else if strings.HasPrefix(bl.kinds[i], "gov-param") || strings.HasPrefix(bl.kinds[i], "lc-") || strings.HasPrefix(bl.kinds[i], "gov-vote") {
+			g.w.Count("ok_" + strings.SplitN(bl.kinds[i], ":", 2)[0])
+		}
+	}
+	oks := make([]bool, len(bl.lcOps))
+	for i, ix := range bl.lcIdx {
+		oks[i] = ix < len(res.TxResults) && res.TxResults[ix].Code == 0
+	}
+	g.lcObserve(bl.lcOps, oks)
+	g.lcBusy = map[string]bool{} // the next block may touch every life-cycle marker again
+	return res, nil
+}
+
 // runHistory drives the reference chain for nBlocks blocks and returns the recorded script.
 func (g *c18Gen) runHistory(genesis c18Genesis, nBlocks int) (c18Script, error) {
 	sc := c18Script{Genesis: genesis}
@@ -904,79 +1060,18 @@ func (g *c18Gen) runHistory(genesis c18Genesis, nBlocks int) (c18Script, error) 
 	}
 	sc.Blocks = append(sc.Blocks, c18Block{TimeUnix: at.Unix()})
 	for b := 0; b < nBlocks; b++ {
-		var txs [][]byte
-		var kinds []string
-		nTx := 2 + g.r.Intn(7)
-		used := map[int]bool{}
-		for i := 0; i < nTx; i++ {
-			p := g.plan()
-			if p == nil {
-				continue
-			}
-			clash := false
-			for _, s := range p.signers {
-				// one tx per signer and block keeps planned transactions independent of each other's effects on sequences
-				if used[s] && g.r.Intn(3) > 0 {
-					clash = true
-				}
-			}
-			if clash {
-				continue
-			}
-			gas := p.gas
-			if gas == 0 {
-				gas = 600_000
-			}
-			bz, err := g.n.signTx(gas, p.extra, p.signers, p.msgs...)
-			if err != nil {
-				g.w.Count("sign_failed")
-				continue
-			}
-			for _, s := range p.signers {
-				used[s] = true
-			}
-			g.kinds[p.kind]++
-			kinds = append(kinds, p.kind)
-			txs = append(txs, bz)
+		var must []*c18Tx
+		if b == nBlocks-1 {
+			must = g.lcLastBlock()
 		}
-		if b%9 == 4 || b == nBlocks-1 {
-			// burst: several triggers due at the same height / time, so that more than one is
-			// detected in one block and the queue holds several (also at export time)
-			due := uint64(g.n.height + 3)
-			for _, o := range []int{3, 4, 5, 6} {
-				if used[o] {
-					continue
-				}
-				var ev triggertypes.TriggerEventI = &triggertypes.BlockHeightEvent{BlockHeight: due}
-				if o == 6 {
-					ev = &triggertypes.BlockTimeEvent{Time: g.n.now.Add(20 * time.Second)}
-				}
-				msg, err := triggertypes.NewCreateTriggerRequest([]string{g.astr(o)}, ev, []sdk.Msg{banktypes.NewMsgSend(g.addr(o), g.addr(13), sdk.NewCoins(sdk.NewInt64Coin(c18Price, int64(o))))})
-				if err != nil {
-					continue
-				}
-				if bz, err := g.n.signTx(1_200_000, nil, []int{o}, msg); err == nil {
-					used[o] = true
-					g.kinds["trigger-burst"]++
-					kinds = append(kinds, "trigger-burst")
-					txs = append(txs, bz)
-				}
-			}
-		}
+		// every block carries at least one life-cycle transaction (a new marker or the next step of one)
+		must = append(must, g.lcPlan())
+		bl := g.buildBlock(2+g.r.Intn(7), b%9 == 4 || b == nBlocks-1, must)
 		at = g.n.now.Add(time.Duration(3+g.r.Intn(25)) * time.Second)
-		res, err := g.n.block(at, txs)
-		if err != nil {
+		if _, err := g.runBlock(bl, at); err != nil {
 			return sc, err
 		}
-		for i, tr := range res.TxResults {
-			if tr.Code != 0 {
-				g.w.Count("failed_" + kinds[i])
-				if os.Getenv("VERIF_C18_DEBUG") != "" {
-					fmt.Printf("FAILED %s: %s/%d %s\n", kinds[i], tr.Codespace, tr.Code, tr.Log)
-				}
-			}
-		}
-		sc.Blocks = append(sc.Blocks, c18Block{TimeUnix: at.Unix(), Txs: txs})
+		sc.Blocks = append(sc.Blocks, c18Block{TimeUnix: at.Unix(), Txs: bl.txs})
 	}
 	return sc, nil
 }
@@ -1008,7 +1103,12 @@ func TestC18(t *testing.T) {
 		if err != nil {
 			t.Fatalf("start: %v", err)
 		}
-		g := &c18Gen{t: t, r: r, n: ref, w: w, kinds: map[string]int{}}
+		// the chain the history is generated on is the PRIMARY node: it receives side traffic
+		// (CheckTx / Simulate / queries / ghost transactions) that no replay of the blocks sees
+		g := &c18Gen{t: t, r: r, n: ref, w: w, kinds: map[string]int{}, lcBusy: map[string]bool{}, ghostSeq: map[int]uint64{}, lcShift: hi*3 + r.Intn(10), paramsMode: hi == 0}
+		ref.side = c18NewSide(r)
+		ref.side.ghosts = g.ghostTxs
+		ref.side.qs = c18Queries(ref, []string{c18Root, c18KycNam}, []string{"rcoin1", "rcoin2", "lc1", "lc2"}, nil)
 		sc, err := g.runHistory(genesis, nBlocks+r.Intn(8))
 		if err != nil {
 			t.Fatalf("history %d: %v", hi, err)
@@ -1048,9 +1148,17 @@ func TestC18(t *testing.T) {
 		w.Add(fmt.Sprintf("CDigests %s \"restart\" %s %s", coqStr(label), c18StrList(ref.digests), c18StrList(d4)),
 			map[string]any{"kind": "digests", "label": label, "mode": "restart", "restarts": restarts, "first_difference": c18FirstDiff(ref.digests, d4)})
 		w.CountN("restarts", int64(restarts))
+		// shadow node: re-opened after EVERY block (each block computed from committed state alone)
+		if hi == 0 || tier() == "thorough" {
+			c18Shadow(t, w, r, label, sc, ref.digests, 1.0, "shadow")
+		}
 
 		// (a) export / import
-		c18ExportImport(t, r, w, label, ref, nPerturb)
+		c18ExportImport(t, r, w, label, ref, nPerturb, g)
+		g.lcEmit(label)
+		for _, k := range c18SortedKeys(ref.side.stats) {
+			w.CountN(k, int64(ref.side.stats[k]))
+		}
 		ref.close()
 	}
 	// second history shape (determinism validation): many accounts, fee-bearing messages with
@@ -1058,6 +1166,8 @@ func TestC18(t *testing.T) {
 	c18FeeShape(t, r, w)
 	// scripted scenario: quarantine record with accepted and unaccepted senders through export / import
 	c18QuarantineCase(t, w)
+	// scripted scenarios: governance tightens a parameter under existing state, then export / import
+	c18TightenCase(t, w)
 	w.Flush(t)
 }
 
